@@ -87,7 +87,9 @@ class Ncp:
                 self.boot_gen += 1
                 self.defer(self.boot_delay, lambda g=self.boot_gen: self._booted(g))
                 return
-            self._send(ashlib.spec_wire("K", code=self.reset_code))
+            k = ashlib.spec_wire("K", code=self.reset_code)
+            # (a line that duplicates a frame delivers both copies back to back: one read carries two RSTACKs)
+            self._send(k + k if getattr(self, "dup_rstack", False) else k)
             return
         if self.booting:
             return
